@@ -1,6 +1,408 @@
 package main
 
-import "github.com/pgavlin/dawn/internal/verif/vlib"
+import (
+	"bytes"
+	"encoding/base64"
+	"encoding/json"
+	"fmt"
+	"os"
+	"path/filepath"
+	"sort"
+	"strings"
 
-// recordFaults: corrupted record files through Load/Run (parts c, d). Filled in below.
-func recordFaults(r *vlib.Run) {}
+	dawn "github.com/pgavlin/dawn"
+	"github.com/pgavlin/dawn/diff"
+	"github.com/pgavlin/dawn/internal/verif/vlib"
+	"github.com/pgavlin/dawn/label"
+	"github.com/pgavlin/dawn/pickle"
+	"go.starlark.net/starlark"
+)
+
+// Parts (c) and (d) of C15: every single-byte corruption / truncation / deletion of every
+// record file of a built project, and every single structural edit of the environment stored
+// in a record's stamp, followed by a fresh Load and Run in a worker process. The worker must
+// not die; the outcome must be a Load error, a Run error or a re-execution - "everything up to
+// date" is accepted only when an independent parse of the corrupted record carries the same
+// stamp, dependencies, rerun flag and run id as the original.
+
+var rfFiles = map[string]string{
+	"dawn.toml": "name = \"p\"\n",
+	"a.txt":     "a\n",
+	"BUILD.dawn": `K = 300
+def helper(x):
+    return x + K
+def _u(t):
+    pass
+target(name="u", function=_u, sources=["a.txt"])
+def _t(t, d=[1, 2]):
+    x = helper(1)
+target(name="t", function=_t, deps=[":u"])
+`,
+}
+
+type rfEvents struct {
+	dawn.Events
+	evaluating []string
+	uptodate   []string
+	failed     []string
+}
+
+func (e *rfEvents) TargetEvaluating(l *label.Label, reason string, d diff.ValueDiff) {
+	e.evaluating = append(e.evaluating, l.String())
+}
+func (e *rfEvents) TargetUpToDate(l *label.Label)          { e.uptodate = append(e.uptodate, l.String()) }
+func (e *rfEvents) TargetFailed(l *label.Label, err error) { e.failed = append(e.failed, l.String()) }
+
+func rfWrite(root string) {
+	os.RemoveAll(root)
+	for n, c := range rfFiles {
+		os.MkdirAll(filepath.Dir(filepath.Join(root, n)), 0o755)
+		os.WriteFile(filepath.Join(root, n), []byte(c), 0o644)
+	}
+}
+
+// rfBuild loads and builds //:t; returns an outcome class.
+func rfBuild(root string, preferIndex bool) (outcome string) {
+	defer func() {
+		if p := recover(); p != nil {
+			outcome = fmt.Sprintf("PANIC %v", p)
+		}
+	}()
+	ev := &rfEvents{Events: dawn.DiscardEvents}
+	proj, err := dawn.Load(root, &dawn.LoadOptions{Events: ev, PreferIndex: preferIndex})
+	if err != nil {
+		return "load-error"
+	}
+	l, _ := label.Parse("//:t")
+	if err := proj.Run(l, nil); err != nil {
+		return "run-error"
+	}
+	if len(ev.evaluating) == 0 {
+		return "up-to-date"
+	}
+	sort.Strings(ev.evaluating)
+	return "executed " + strings.Join(ev.evaluating, ",")
+}
+
+type record struct {
+	Doc   string            `json:"doc"`
+	Deps  map[string]string `json:"dependencies"`
+	Stamp string            `json:"stamp"`
+	Rerun bool              `json:"rerun"`
+	Run   string            `json:"run"`
+}
+
+func sameRecord(a, b []byte, ignoreRun bool) bool {
+	var x, y record
+	// the first JSON value of the file is the record (trailing bytes are not part of it)
+	if json.NewDecoder(bytes.NewReader(a)).Decode(&x) != nil || json.NewDecoder(bytes.NewReader(b)).Decode(&y) != nil {
+		return false
+	}
+	if !sameStamp(x.Stamp, y.Stamp) || x.Rerun != y.Rerun || (x.Run != y.Run && !ignoreRun) || len(x.Deps) != len(y.Deps) {
+		return false
+	}
+	for k, v := range x.Deps {
+		if y.Deps[k] != v {
+			return false
+		}
+	}
+	return true
+}
+
+// sameStamp: equal strings, or (function targets) stamps that decode to equal environments -
+// e.g. a corruption that drops a MEMOIZE nobody refers to. The decoder itself is the subject of
+// parts (a), (b) and of C07.
+func sameStamp(a, b string) bool {
+	if a == b {
+		return true
+	}
+	dec := func(s string) (starlark.Value, error) {
+		return pickle.NewDecoder(base64.NewDecoder(base64.StdEncoding, strings.NewReader(s)), pickle.UnpicklerFunc(dawn.VerifEnvUnpickler)).Decode()
+	}
+	x, err1 := dec(a)
+	y, err2 := dec(b)
+	if err1 != nil || err2 != nil || x == nil || y == nil {
+		return false
+	}
+	eq, err := starlark.EqualDepth(x, y, 1000)
+	return err == nil && eq
+}
+
+type rfCase struct {
+	file string
+	kind string
+	pos  int
+	val  int
+	edit string // structural edits
+}
+
+func recordFaults(r *vlib.Run) {
+	base := filepath.Join(r.Scratch, "rfbase")
+	rfWrite(base)
+	if out := rfBuild(base, false); !strings.HasPrefix(out, "executed") {
+		vlib.Fatalf("record-fault project does not build: %s", out)
+	}
+	if out := rfBuild(base, false); out != "up-to-date" {
+		vlib.Fatalf("record-fault project is not up to date after a build: %s", out)
+	}
+	// collect record files
+	orig := map[string][]byte{}
+	filepath.Walk(filepath.Join(base, ".dawn", "build"), func(p string, info os.FileInfo, err error) error {
+		if err == nil && !info.IsDir() {
+			rel, _ := filepath.Rel(base, p)
+			b, _ := os.ReadFile(p)
+			orig[rel] = b
+		}
+		return nil
+	})
+	var files []string
+	for f := range orig {
+		files = append(files, f)
+	}
+	sort.Strings(files)
+	subst := []int{0, '"', '{', '}', ',', ':', 'A', '0', '=', ' ', 0xff, '\\'}
+	if r.Thorough() {
+		subst = nil
+		for i := 0; i < 256; i++ {
+			subst = append(subst, i)
+		}
+	}
+	var cases []rfCase
+	for _, f := range files {
+		n := len(orig[f])
+		for p := 0; p <= n; p++ {
+			cases = append(cases, rfCase{file: f, kind: "truncate", pos: p})
+			if p < n {
+				cases = append(cases, rfCase{file: f, kind: "delete", pos: p})
+				for _, v := range subst {
+					if byte(v) != orig[f][p] {
+						cases = append(cases, rfCase{file: f, kind: "subst", pos: p, val: v})
+					}
+				}
+			}
+		}
+	}
+	// structural edits of the environments in function-target records
+	type sedit struct {
+		file, desc string
+		stamp      string
+	}
+	var sedits []sedit
+	for _, f := range files {
+		if !strings.Contains(f, "targets") {
+			continue
+		}
+		var rec record
+		if json.Unmarshal(orig[f], &rec) != nil || rec.Stamp == "" {
+			continue
+		}
+		raw, err := base64.StdEncoding.DecodeString(rec.Stamp)
+		if err != nil {
+			continue
+		}
+		env, err := pickle.NewDecoder(bytes.NewReader(raw), pickle.UnpicklerFunc(dawn.VerifEnvUnpickler)).Decode()
+		if err != nil {
+			vlib.Fatalf("decoding stamp of %s: %v", f, err)
+		}
+		for _, e := range structuralEdits(env) {
+			if eq, err := starlark.EqualDepth(env, e.v, 1000); err == nil && eq {
+				continue // the edit replaces a value by an equal one: the record still says the same
+			}
+			var buf bytes.Buffer
+			if err := pickle.NewEncoder(&buf, nil).Encode(e.v); err != nil {
+				continue
+			}
+			sedits = append(sedits, sedit{f, e.desc, base64.StdEncoding.EncodeToString(buf.Bytes())})
+		}
+	}
+	nByte := len(cases)
+	for i, e := range sedits {
+		cases = append(cases, rfCase{file: e.file, kind: "structural", pos: i, edit: e.desc})
+	}
+	if only := os.Getenv("VERIF_RF_ONLY"); only != "" {
+		for _, c := range cases {
+			if fmt.Sprintf("%s:%s:%d:%d", c.file, c.kind, c.pos, c.val) == only || (only == "allstructural" && c.kind == "structural") {
+				root := filepath.Join(r.Scratch, "rf1")
+				copyDir(base, root)
+				m := append([]byte{}, orig[c.file]...)
+				if c.kind == "structural" {
+					var rec map[string]any
+					json.Unmarshal(m, &rec)
+					rec["stamp"] = sedits[c.pos].stamp
+					m, _ = json.Marshal(rec)
+					fmt.Println("DEBUG edit:", c.edit)
+				} else {
+					m[c.pos] = byte(c.val)
+				}
+				os.WriteFile(filepath.Join(root, c.file), m, 0o644)
+				ev := &rfEvents{Events: dawn.DiscardEvents}
+				proj, err := dawn.Load(root, &dawn.LoadOptions{Events: ev})
+				fmt.Println("DEBUG load err:", err)
+				if err == nil {
+					l, _ := label.Parse("//:t")
+					fmt.Println("DEBUG run err:", proj.Run(l, nil), "evaluating", ev.evaluating, "uptodate", ev.uptodate, "failed", ev.failed)
+				}
+				b, _ := os.ReadFile(filepath.Join(root, c.file))
+				fmt.Println("DEBUG record after:", string(b))
+			}
+		}
+		os.Exit(0)
+	}
+	r.OnCrash = func(idx int, output string) {
+		c := cases[idx]
+		what := firstLinesRF(output, 4)
+		cls := "process-died"
+		if strings.Contains(output, "index out of range") || strings.Contains(output, "slice bounds out of range") {
+			cls = "index-panic"
+		}
+		r.Violation("C15:record-corruption-crash:"+cls, fmt.Sprintf("the process died after %s of %s at %d (%s): %s", c.kind, c.file, c.pos, c.edit, what),
+			map[string]any{"file": c.file, "kind": c.kind, "pos": c.pos, "value": c.val, "edit": c.edit, "original_record": string(orig[c.file]), "output": what})
+	}
+	r.Distribute(len(cases), func(i int) {
+		c := cases[i]
+		root := filepath.Join(r.Scratch, "rf")
+		os.RemoveAll(root)
+		copyDir(base, root)
+		o := orig[c.file]
+		var m []byte
+		switch c.kind {
+		case "truncate":
+			m = append([]byte{}, o[:c.pos]...)
+		case "delete":
+			m = append(append([]byte{}, o[:c.pos]...), o[c.pos+1:]...)
+		case "subst":
+			m = append([]byte{}, o...)
+			m[c.pos] = byte(c.val)
+		case "structural":
+			var rec map[string]any
+			json.Unmarshal(o, &rec)
+			rec["stamp"] = sedits[i-nByte].stamp
+			m, _ = json.Marshal(rec)
+		}
+		if bytes.Equal(m, o) {
+			return
+		}
+		os.WriteFile(filepath.Join(root, c.file), m, 0o644)
+		pi := strings.HasSuffix(c.file, "index.json")
+		out := rfBuild(root, pi)
+		r.Add("record_faults", 1)
+		r.Outcome("record_outcomes", c.kind+":"+strings.SplitN(out, " ", 2)[0])
+		switch {
+		case strings.HasPrefix(out, "PANIC"):
+			r.Violation("C15:record-corruption-panic", fmt.Sprintf("%s of %s at %d (%s): %s", c.kind, c.file, c.pos, c.edit, out), map[string]any{"file": c.file, "kind": c.kind, "pos": c.pos, "value": c.val, "corrupted": string(m)})
+		// the run id of //:t matters to nobody: no built target depends on it
+		case out == "up-to-date" && !pi && !sameRecord(o, m, strings.HasSuffix(c.file, "%2Ft")):
+			r.Violation("C15:corrupted-record-treated-as-up-to-date", fmt.Sprintf("%s of %s at %d (%s): every target reported up to date though the record no longer says what it said", c.kind, c.file, c.pos, c.edit),
+				map[string]any{"file": c.file, "kind": c.kind, "pos": c.pos, "value": c.val, "original": string(o), "corrupted": string(m)})
+		}
+		if i%4001 == 0 {
+			r.Sample(map[string]any{"file": c.file, "kind": c.kind, "pos": c.pos, "outcome": out})
+		}
+	})
+}
+
+type sval struct {
+	desc string
+	v    starlark.Value
+}
+
+// structuralEdits returns every single structural edit of env at every node (to depth 3):
+// delete an entry, add an entry with a fresh key, replace a value by each of a few
+// representatives, change a container's kind.
+func structuralEdits(env starlark.Value) []sval {
+	var out []sval
+	repl := []starlark.Value{starlark.None, starlark.MakeInt(0), starlark.String(""), starlark.Tuple{}, starlark.NewList(nil), starlark.NewDict(0)}
+	var rec func(v starlark.Value, path string, depth int, rebuild func(starlark.Value) starlark.Value)
+	rec = func(v starlark.Value, path string, depth int, rebuild func(starlark.Value) starlark.Value) {
+		for i, rv := range repl {
+			out = append(out, sval{fmt.Sprintf("%s := repl#%d", path, i), rebuild(rv)})
+		}
+		if depth == 0 {
+			return
+		}
+		switch x := v.(type) {
+		case *starlark.Dict:
+			items := x.Items()
+			mk := func(skip int, add bool, sub int, subv starlark.Value) starlark.Value {
+				d := starlark.NewDict(len(items) + 1)
+				for i, it := range items {
+					if i == skip {
+						continue
+					}
+					val := it[1]
+					if i == sub {
+						val = subv
+					}
+					d.SetKey(it[0], val)
+				}
+				if add {
+					d.SetKey(starlark.String("zz-unknown-key"), starlark.MakeInt(1))
+				}
+				return d
+			}
+			out = append(out, sval{path + " += unknown key", rebuild(mk(-1, true, -1, nil))})
+			for i, it := range items {
+				i := i
+				out = append(out, sval{fmt.Sprintf("%s -= key %s", path, it[0]), rebuild(mk(i, false, -1, nil))})
+				rec(it[1], fmt.Sprintf("%s[%s]", path, it[0]), depth-1, func(nv starlark.Value) starlark.Value { return rebuild(mk(-1, false, i, nv)) })
+			}
+		case starlark.Tuple:
+			for i := range x {
+				i := i
+				rec(x[i], fmt.Sprintf("%s.%d", path, i), depth-1, func(nv starlark.Value) starlark.Value {
+					t := append(starlark.Tuple{}, x...)
+					t[i] = nv
+					return rebuild(t)
+				})
+			}
+			if len(x) > 0 {
+				out = append(out, sval{path + " -= last", rebuild(append(starlark.Tuple{}, x[:len(x)-1]...))})
+			}
+			out = append(out, sval{path + " as list", rebuild(starlark.NewList(append([]starlark.Value{}, x...)))})
+		case *starlark.List:
+			var el []starlark.Value
+			for i := 0; i < x.Len(); i++ {
+				el = append(el, x.Index(i))
+			}
+			out = append(out, sval{path + " as tuple", rebuild(starlark.Tuple(el))})
+			if len(el) > 0 {
+				out = append(out, sval{path + " -= last", rebuild(starlark.NewList(el[:len(el)-1]))})
+			}
+		}
+	}
+	rec(env, "env", 3, func(v starlark.Value) starlark.Value { return v })
+	return out
+}
+
+func firstLinesRF(s string, n int) string {
+	ls := strings.Split(s, "\n")
+	var keep []string
+	for _, l := range ls {
+		if strings.Contains(l, "panic") || strings.Contains(l, "fatal") || strings.Contains(l, ".go:") {
+			keep = append(keep, strings.TrimSpace(l))
+		}
+		if len(keep) >= n {
+			break
+		}
+	}
+	return strings.Join(keep, " | ")
+}
+
+func copyDir(from, to string) {
+	filepath.Walk(from, func(p string, info os.FileInfo, err error) error {
+		if err != nil {
+			return nil
+		}
+		rel, _ := filepath.Rel(from, p)
+		dst := filepath.Join(to, rel)
+		if info.IsDir() {
+			os.MkdirAll(dst, 0o755)
+			return nil
+		}
+		b, err := os.ReadFile(p)
+		if err == nil {
+			os.WriteFile(dst, b, 0o644)
+		}
+		return nil
+	})
+}
